@@ -40,7 +40,7 @@ RULE = ("a case = op history through the real writer with maxNovel 1..3 (several
         "at least one complete batch; distinct by op list and variant list")
 ASSUMPTIONS = ["distinct chunk addresses differ in their first 16 bytes",
                "random garbage does not validate under CRC-32C (probability 2^-32)"]
-REQUIRED_TAGS = ["genuine-validated", "missing", "empty", "trunc-benign-eof", "stale-validated", "recovery", "malformed-tag",
+REQUIRED_TAGS = ["meta-end-forged", "genuine-validated", "missing", "empty", "trunc-benign-eof", "stale-validated", "recovery", "malformed-tag",
                  "xor-lookup-tag", "xor-lookup-addr", "xor-lookup-off", "xor-lookup-len",
                  "xor-meta-tag", "xor-meta-start", "xor-meta-end", "xor-meta-cksum", "xor-meta-root",
                  "swap-accepted", "setlen", "setoff", "random-bytes", "journal-truncated", "ro-open", "rw-open", "multi-batch",
@@ -116,8 +116,53 @@ def harmless_vars(rng, nops, nrecs_guess, ntrunc=4):
     return vs
 
 
+def sim_index(ops, maxnovel):
+    """the journal.idx the writer produces for a history of raw chunk records and commits (record sizes are known
+    for raw payloads): returns (index bytes, [(position of the meta record in the index, offset of its root record)],
+    offsets of all root records)"""
+    idx, metas, roots = [], [], []
+    off, indexed, novel, batch = 0, 0, set(), []
+    for o in ops:
+        if o["k"] == "raw":
+            idx += [0] + o["addr"][:16] + be64(off + 28) + be32(len(o["full"]))
+            batch += o["addr"][:16]
+            novel.add(tuple(o["addr"]))
+            off += 32 + len(o["full"])
+        elif o["k"] == "commit":
+            roots.append(off)
+            if len(novel) > maxnovel:
+                metas.append((len(idx), off))
+                idx += [1] + be64(indexed) + be64(off) + be32(crc32c(batch)) + list(o["root"])
+                indexed, novel, batch = off, set(), []
+            off += 40
+        else:
+            raise ValueError("sim_index: raw and commit ops only")
+    return idx, metas, roots
+
+
+def forged_end_case(rng):
+    """An index that is genuine except that the |end| of its last complete batch names a LATER root record of the same
+    journal (which holds a different root): the chunk records between the true and the forged end are then neither in
+    the index nor replayed.  readJournalIndex must reject it because the meta's root is not the root at that offset."""
+    mk = lambda n: {"k": "raw", "addr": rbytes(rng, 20), "full": wf_payload(rng, n)}
+    ops = [mk(6), mk(9), {"k": "commit", "root": rbytes(rng, 20), "ts": 3},       # novel 2 > 1: batch 1
+           mk(5), mk(7), {"k": "commit", "root": rbytes(rng, 20), "ts": 4},       # batch 2
+           mk(8), {"k": "commit", "root": rbytes(rng, 20), "ts": 5}]              # novel 1: no meta, but a later root record
+    idx, metas, roots = sim_index(ops, 1)
+    vs = [V("bytes", bytes=list(idx)), V("bytes", bytes=list(idx), ro=True)]
+    for n, (pos, end) in enumerate(metas):
+        for later in [r for r in roots if r > end]:
+            forged = list(idx)
+            forged[pos + 9:pos + 17] = be64(later)
+            vs.append(V("bytes", bytes=forged[:pos + 41], forged=True, ro=rng.random() < 0.5))   # nothing after the forged batch
+            if n == len(metas) - 1:
+                vs.append(V("bytes", bytes=forged, forged=True))                               # trailing lookups kept
+                vs.append(V("bytes", bytes=forged, forged=True, ro=True))
+    return {"bufsz": 0, "maxnovel": 1, "ops": ops, "vars": vs, "simindex": list(idx)}
+
+
 def gen_cases(rng, tier):
-    cases = []
+    cases = [forged_end_case(rng)]
     n = 22 if tier == "quick" else 300
     cap = 24 if tier == "quick" else 80
     for i in range(n):
@@ -224,6 +269,8 @@ def classify(case, out):
     if o is None:
         return ["panic" if out.get("panic") else "harness-error"]
     t = set()
+    if case.get("simindex") is not None and case["simindex"] == o["index"] and any(v.get("forged") for v in case["vars"]):
+        t.add("meta-end-forged")          # the plugin's own reconstruction of journal.idx is the real file: the forgeries are what they claim
     if len(o["fnbatch"]) >= 2:
         t.add("multi-batch")
     for v in o["vars"]:
@@ -285,7 +332,7 @@ def neighbours(case, rng):
 
 
 def search_cases(rng):
-    out = []
+    out = [forged_end_case(rng) for _ in range(2)]
     for _ in range(3):
         ops = gen_ops(rng)
         out.append({"bufsz": 0, "maxnovel": 1, "ops": ops, "vars": harmless_vars(rng, len(ops), 8)[:24]})
